@@ -134,7 +134,13 @@ func compile(typ *runtime.Type, structName, fieldName string, structTypeToDecode
 	return newInvalidDecoder(typ, structName, fieldName), nil
 }
 
+// isStringTagSupportedType: the ",string" option applies, as in encoding/json, to strings,
+// floats, integers and booleans, held directly or behind one unnamed pointer; on a field of
+// any other type it is ignored.
 func isStringTagSupportedType(typ *runtime.Type) bool {
+	if typ.Name() == "" && typ.Kind() == reflect.Ptr {
+		typ = typ.Elem()
+	}
 	switch {
 	case implementsUnmarshalJSONType(runtime.PtrTo(typ)):
 		return false
@@ -142,18 +148,14 @@ func isStringTagSupportedType(typ *runtime.Type) bool {
 		return false
 	}
 	switch typ.Kind() {
-	case reflect.Map:
-		return false
-	case reflect.Slice:
-		return false
-	case reflect.Array:
-		return false
-	case reflect.Struct:
-		return false
-	case reflect.Interface:
-		return false
+	case reflect.Bool,
+		reflect.Int, reflect.Int8, reflect.Int16, reflect.Int32, reflect.Int64,
+		reflect.Uint, reflect.Uint8, reflect.Uint16, reflect.Uint32, reflect.Uint64, reflect.Uintptr,
+		reflect.Float32, reflect.Float64,
+		reflect.String:
+		return true
 	}
-	return true
+	return false
 }
 
 func compileMapKey(typ *runtime.Type, structName, fieldName string, structTypeToDecoder map[uintptr]Decoder) (Decoder, error) {
